@@ -223,6 +223,20 @@ def cls_langs():
         assoc('Conn', 'Net_Zone', 'zones', '*', '*', 'members', 'Host'),
         assoc('Conn', 'Net', 'zones', '0..1', '*', 'members', 'Zone_Host'),
     ], lang_id='org.verif.cls9')
+    # three associations of one name whose joined class names coincide even with the field names appended,
+    # and an association that is literally called like a sub-entry of another one
+    out['joined'] = spec([
+        asset('Web_App', steps=[step('go', 'or', reaches=[COL(F('stores'), S('go')), COL(F('backing'), S('go'))])]),
+        asset('Data', steps=[step('go', 'or')]), asset('Web', steps=[step('go', 'or', reaches=[COL(F('backing'), S('go'))])]),
+        asset('App_Data', steps=[step('go', 'or')]), asset('Host', steps=[step('go', 'or', reaches=[COL(F('apps'), S('go'))])]),
+        asset('App', steps=[step('go', 'or', reaches=[COL(F('peer'), S('go'))])]),
+    ], [
+        assoc('Link', 'Web_App', 'apps', '0..1', '*', 'stores', 'Data'),
+        assoc('Link', 'Web', 'fronts', '*', '0..1', 'backing', 'App_Data'),
+        assoc('Link', 'Web_App', 'fronts', '*', '*', 'backing', 'Data'),
+        assoc('Link', 'Host', 'hosts', '*', '*', 'apps', 'App'),
+        assoc('Link_Host_App', 'App', 'peerOf', '*', '*', 'peer', 'App'),
+    ], lang_id='org.verif.cls10')
     # a language that declares no association at all
     out['noassoc'] = spec([
         asset('Aa', steps=[step('go', 'or', reaches=[S('end')]), step('end', 'and'), step('dd', 'defense', ttc=fn('Enabled'), reaches=[S('end')])]),
